@@ -236,7 +236,7 @@ def _who_writes(ck: Check, repo: Repo) -> None:
     acfg = CFG(add.node)
     atb = TermBuilder(repo, add, cfg=acfg, depth=0)
     ups = [c for c in calls_in(add.node) if call_name(c) == "self._update_priority"]
-    ck.floor("C11.3", len(ups), 1, "_update_priority call in PrioritizedReplayBuffer.add")
+    ck.floor("C11.3", len(ups), 1, "_update_priority call in PrioritizedReplayBuffer.add", fn=add)
     for c in ups:
         ck.ob("C11.3", add, c, len(c.args) == 2 and dotted(c.args[1]) == "self.max_priority", "a new transition is given the maximum priority seen so far")
         ck.ob("C11.4", add, c, dotted(c.args[0]) == "self.tree_ptr", "the priority of a new transition is written at the tree pointer")
@@ -248,7 +248,7 @@ def _who_writes(ck: Check, repo: Repo) -> None:
             ok = cnt == atb.term(_expr("data.shape[0]"), loops[0])
         ck.ob("C11.4", add, loops[0].ast.iter if loops else c, ok, "one priority is written per stored transition (loop over the batch width)")
     ptr = [n for n in acfg.live_nodes() if n.kind == "stmt" and isinstance(n.ast, ast.Assign) and dotted(n.ast.targets[0]) == "self.tree_ptr"]
-    ck.floor("C11.4", len(ptr), 1, "tree pointer update in add")
+    ck.floor("C11.4", len(ptr), 1, "tree pointer update in add", fn=add)
     for n in ptr:
         t = atb.term(n.ast.value, n)
         a = single_atom(atb, t)
@@ -290,7 +290,7 @@ def _weights(ck: Check, repo: Repo) -> None:
     ivar, idxvar = lp.target.elts[0].id, lp.target.elts[1].id
     stores = [n for n in cfg.live_nodes() if n.kind == "stmt" and isinstance(n.ast, ast.Assign) and isinstance(n.ast.targets[0], ast.Subscript)
               and dotted(n.ast.targets[0].slice) == ivar]
-    ck.floor("C11.5", len(stores), 1, "weight store in the loop")
+    ck.floor("C11.5", len(stores), 1, "weight store in the loop", fn=fn)
     spec_src = (f"((self.sum_tree[{idxvar}] / self.sum_tree.sum()) * self.size) ** (-beta) / "
                 f"((self.min_tree.min() / self.sum_tree.sum()) * self.size) ** (-beta)")
     for s in stores:
@@ -329,7 +329,7 @@ def _strata(ck: Check, repo: Repo) -> None:
     cfg = CFG(fn.node)
     tb = TermBuilder(repo, fn, cfg=cfg, depth=0)
     calls = [c for c in calls_in(fn.node) if last_attr(c) == "retrieve"]
-    ck.floor("C11.6", len(calls), 1, "retrieve call in _sample_proportional")
+    ck.floor("C11.6", len(calls), 1, "retrieve call in _sample_proportional", fn=fn)
     loops = [n for n in cfg.live_nodes() if n.kind == "for"]
     ok = len(loops) == 1 and isinstance(loops[0].ast.iter, ast.Call) and call_name(loops[0].ast.iter) == "range" and dotted(loops[0].ast.iter.args[0]) == "batch_size"
     ck.ob("C11.6", fn, loops[0].ast.iter if loops else fn.node, ok, "one draw per stratum, batch_size strata")
